@@ -1,5 +1,6 @@
 import Exetera.Model.FilterIndex
 import Exetera.Spec.FilterIndex
+import Exetera.Spec.SortKeys
 /-!
   Witnesses of the defects found for C09, on the `asFound` variant of the model (the code before the fix patches).
   They stay in the tree: if a fix is lost, the correspondence matches `asFound` again and these are the replays
@@ -46,5 +47,19 @@ theorem nc09b_index_out_of_bounds :
     applyIndicesToIndexValues .asFound [-5] indices values = .error (.oob "next_[i]") ∧
     applyIndicesToIndexValues .repaired [0, 7] indices values = .error (.oob "index out of bounds for indexed field") := by
   refine ⟨?_, ?_, ?_⟩ <;> rfl
+
+/-- NC09g (open): an indexed-string sort key is sorted as a numpy `<U` array, which cannot tell a trailing NUL character from
+    padding: the keys `'a\x00'`, `'a'` get the same rank (are tied), so the stable sort leaves them in their original order
+    `[0, 1]` — but bytewise `'a' < 'a\x00'`, and the stable ascending permutation of the stored strings is `[1, 0]`. -/
+theorem nc09g_trailing_nul_key_ties :
+    rankKeys ([[97, 0], [97]].map trimNul) = [0, 0] ∧
+    strLt [97] [97, 0] = true ∧
+    IsStableSortPermK [.strs [[97, 0], [97]]] 2 [1, 0] ∧ ¬ IsStableSortPermK [.strs [[97, 0], [97]]] 2 [0, 1] ∧
+    IsStableSortPermK [KeyCol.numpyView (.strs [[97, 0], [97]])] 2 [0, 1] := by
+  refine ⟨by decide, by decide, ⟨by decide, by decide⟩, ?_, ⟨by decide, by decide⟩⟩
+  intro h
+  have := h.2
+  revert this
+  decide
 
 end Exetera.Witness.C09
